@@ -451,6 +451,23 @@ def run_check(P: Prop, tier: str, seed: int, replay: str | None = None) -> int:
     else:
         cases = load_corpus(P) + list(P.generate(tier, rng))
     results = evaluate(P, cases)
+    # change-triggered escalation: the code this property depends on differs from the snapshot the models were last
+    # validated against -> further seeds of the same streams, within a wall-clock budget (never a disagreement by itself)
+    from . import anchors
+
+    moved = [] if replay else anchors.changed_files(P.id, REPO)
+    escalated_seeds = []
+    if moved and tier == "quick" and os.environ.get("VERIF_NO_ESCALATION") != "1":
+        budget = float(os.environ.get("VERIF_ESCALATION_BUDGET_S", "150"))
+        k = 0
+        while k < 4:
+            per_batch = (time.time() - t0) / (k + 1)
+            if time.time() - t0 + per_batch > budget:
+                break
+            k += 1
+            s2 = seed + 7001 * k
+            results += evaluate(P, list(P.generate(tier, random.Random(s2))))
+            escalated_seeds.append(s2)
     seen, nontrivial = set(), 0
     dist = {}
     for c, io, mo, dis, orc in results:
@@ -547,6 +564,8 @@ def run_check(P: Prop, tier: str, seed: int, replay: str | None = None) -> int:
         "known_findings_hit": {k: v[2] for k, v in known_hits.items()},
         "exhaustive": False,
         "repo": str(REPO),
+        "anchored_source_changed": moved,
+        "escalated_seeds": escalated_seeds,
     }
     if leanchecker is not None:
         cov["leanchecker"] = leanchecker
